@@ -35,6 +35,9 @@ static std::unique_ptr<z3::model> g_model;
 static long g_fresh = 0;
 static std::vector<std::pair<std::string, expr>> g_inputs;
 static std::string g_inputs_json = "{}";        // input values in the current model
+static char g_callsite[160] = "";               // set by the harness before a call that may crash (crash reports name it)
+static char g_inputs_buf[8192] = "{}";           // async-signal-safe copy for the crash handler
+static void sync_inputs_buf() { size_t n = g_inputs_json.size() < sizeof g_inputs_buf - 1 ? g_inputs_json.size() : 0; if (n) memcpy(g_inputs_buf, g_inputs_json.data(), n); else memcpy(g_inputs_buf, "null", 4), n = 4; g_inputs_buf[n] = 0; }
 static std::map<std::string, std::string> g_facts;
 static std::map<std::string, long> g_params;
 static std::map<std::string, void (*)()> *g_harnesses;
@@ -131,6 +134,7 @@ static bool g_obligation_call = false;   // the query is an obligation (only its
 static std::string g_ext_inputs_json;     // inputs of the last sat answer when it came from cvc5
 static bool g_last_sat_external = false;
 static long g_cvc5_calls = 0;
+static bool g_poisoned = false;          // a z3 exception (e.g. out of memory) may leave z3's internal locks held: retire this worker after the path
 static long g_fallbacks = 0;
 static z3::check_result timed_check(const expr* assumption) {
   auto t0 = std::chrono::steady_clock::now();
@@ -151,7 +155,7 @@ static z3::check_result timed_check(const expr* assumption) {
     if (assumption) { z3::expr_vector v(ctx()); v.push_back(*assumption); r = g_solver->check(v); }
     else r = g_solver->check();
     if (r == z3::sat) g_last_model.reset(new z3::model(g_solver->get_model()));
-  } catch (z3::exception& e) { r = z3::unknown; }
+  } catch (z3::exception& e) { r = z3::unknown; g_poisoned = true; }
   if (r == z3::unknown) {
     // The incremental core gave up: decide the same formula once in a fresh (non-incremental) solver,
     // which runs z3's preprocessing and tactic selection.
@@ -170,7 +174,7 @@ static z3::check_result timed_check(const expr* assumption) {
         std::ofstream f(fn.str()); f << s2.to_smt2();
         fprintf(stderr, "unknown reason: %s\n", s2.reason_unknown().c_str());
       }
-    } catch (z3::exception& e) { r = z3::unknown; }
+    } catch (z3::exception& e) { r = z3::unknown; g_poisoned = true; }
     if (r == z3::unknown && !g_force_cvc5 && g_obligation_call) {
       r = cvc5_check(assumption, g_query_timeout_ms * 4);
       if (r == z3::sat) g_last_sat_external = true;
@@ -254,7 +258,7 @@ static void ensure_model() {
   z3::check_result r = timed_check(0);
   if (r == z3::sat) {
     g_model.reset(new z3::model(*g_last_model)); g_have_model = true;
-    g_inputs_json = model_inputs_json(*g_model);
+    g_inputs_json = model_inputs_json(*g_model); sync_inputs_buf();
     return;
   }
   if (r == z3::unknown) abort_path("unknown on path condition");
@@ -341,7 +345,7 @@ long value_decision(const std::function<expr(long)>& cond, const std::function<b
   Decision dd; dd.kind = 'V'; dd.v = v;
   push_decision(dd);
   g_solver->add(cv);
-  g_inputs_json = model_inputs_json(*g_model);
+  g_inputs_json = model_inputs_json(*g_model); sync_inputs_buf();
   return v;
 }
 
@@ -440,6 +444,7 @@ void require(bool ok, const std::string& label) {
 }
 void note(const std::string& key) { Rt_Guard rg; send_line("N " + key); }
 void fact(const std::string& k, const std::string& v) { Rt_Guard rg; g_facts[k] = v; }
+void at(const char* callsite) { strncpy(g_callsite, callsite, sizeof g_callsite - 1); g_callsite[sizeof g_callsite - 1] = 0; }
 
 // defined in symrt_gmp.cc
 void set_input_term(mpz_class& z, const expr& v, long lo, long hi);
@@ -484,8 +489,8 @@ static void crash_handler(int sig) {
   // Async context: only write() of preformatted buffers.
   static char buf[16384];
   const char* kind = sig == SIGALRM ? "timeout" : "crash";
-  int n = snprintf(buf, sizeof buf, "V {\"kind\":\"%s\",\"harness\":\"%s\",\"label\":\"signal %d\",\"inputs\":%s,\"facts\":{},\"prefix\":\"%s\",\"witness\":\"%s\"}\n",
-                   kind, g_harness_name.c_str(), sig, g_have_model ? g_inputs_json.c_str() : "null", g_dec_str.c_str(), g_in_solver ? "in-solver" : "");
+  int n = snprintf(buf, sizeof buf, "V {\"kind\":\"%s\",\"harness\":\"%s\",\"label\":\"signal %d%s%s\",\"inputs\":%s,\"facts\":{},\"prefix\":\"%s\",\"witness\":\"%s\"}\n",
+                   kind, g_harness_name.c_str(), sig, g_callsite[0] ? " in " : "", g_callsite, g_have_model ? g_inputs_buf : "null", g_dec_str.c_str(), g_in_solver ? "in-solver" : "");
   if (n > 0 && g_out_fd >= 0) { ssize_t w = write(g_out_fd, buf, n < (int)sizeof buf ? n : (int)sizeof buf - 1); (void)w; }
   _exit(70);
 }
@@ -493,8 +498,8 @@ static void terminate_handler() { crash_handler(SIGABRT); }
 
 static void run_path(void (*fn)(), const std::string& prefix) {
   g_prefix = parse_prefix(prefix);
-  g_decisions.clear(); g_dec_str.clear(); g_have_model = false; g_fresh = 0; g_inputs.clear(); g_inputs_json = "{}";
-  g_facts.clear(); g_ps = Path_Stats(); g_pending_abort = false; g_viol_this_path = 0;
+  g_decisions.clear(); g_dec_str.clear(); g_have_model = false; g_fresh = 0; g_inputs.clear(); g_inputs_json = "{}"; sync_inputs_buf();
+  g_facts.clear(); g_callsite[0] = 0; g_ps = Path_Stats(); g_pending_abort = false; g_viol_this_path = 0;
   g_fault_kinds = 0; g_fault_fired = false; g_fault_points = 0; g_obligation_mode = 0;
   z3::solver s(ctx());
   z3::params p(ctx()); p.set("timeout", g_query_timeout_ms); s.set(p);
@@ -524,7 +529,8 @@ static void run_path(void (*fn)(), const std::string& prefix) {
      << " " << json_escape(g_ps.why);
   if (g_ps.checks == 0 && strcmp(status, "ok") == 0) { /* path made no obligation */ }
   send_line(os.str());
-  g_solver = 0; g_model.reset(); g_arena.clear();
+  if (g_poisoned) _exit(0);          // the master respawns a clean worker
+  g_solver = 0; g_model.reset(); g_last_model.reset(); g_arena.clear();
   g_in_runtime = false;
 }
 
@@ -544,10 +550,10 @@ static void worker_main(void (*fn)(), int in_fd, int out_fd) {
 }
 
 // ------------------------------------------------------------------ master
-struct Worker { pid_t pid; int to_fd, from_fd; std::string buf; bool busy; std::string prefix; bool got_v_crash; };
+struct Worker { pid_t pid; int to_fd, from_fd; std::string buf; bool busy; std::string prefix; bool got_v_crash; double since; };
 struct Totals {
   long paths = 0, deadends = 0, inconclusive = 0, incomplete = 0, crashes = 0, branches = 0, q_sat = 0, q_unsat = 0, q_unknown = 0,
-       checks = 0, discharged = 0, concretizations = 0, fault_points = 0, max_depth = 0;
+       checks = 0, discharged = 0, concretizations = 0, fault_points = 0, max_depth = 0, hung = 0;
   double solver_s = 0;
   std::vector<std::string> violations;     // JSON objects (at most 5000 kept per label; witness text only for the first 5)
   std::map<std::string, long> viol_by_label; long viol_total = 0;
@@ -571,7 +577,7 @@ static Worker spawn_worker(void (*fn)()) {
 }
 
 int main_entry(int argc, char** argv) {
-  std::string harness, out_path; int nworkers = 16; long max_paths = -1; double budget_s = -1; bool list = false;
+  std::string harness, out_path, one_prefix; int nworkers = 16; long max_paths = -1; double budget_s = -1; bool list = false;
   for (int i = 1; i < argc; ++i) {
     std::string a = argv[i];
     auto next = [&]() -> std::string { if (i + 1 >= argc) { fprintf(stderr, "missing value for %s\n", a.c_str()); exit(2); } return argv[++i]; };
@@ -584,12 +590,14 @@ int main_entry(int argc, char** argv) {
     else if (a == "--path-timeout") g_path_timeout_s = atoi(next().c_str());
     else if (a == "--out") out_path = next();
     else if (a == "--list") list = true;
+    else if (a == "--one-prefix") one_prefix = next();
     else { fprintf(stderr, "unknown option %s\n", a.c_str()); return 2; }
   }
   if (list) { if (g_harnesses) for (auto& h : *g_harnesses) printf("%s\n", h.first.c_str()); return 0; }
   if (!g_harnesses || !g_harnesses->count(harness)) { fprintf(stderr, "no such harness '%s'\n", harness.c_str()); return 2; }
   g_harness_name = harness;
   void (*fn)() = (*g_harnesses)[harness];
+  if (!one_prefix.empty()) { g_out_fd = 1; run_path(fn, one_prefix); return 0; }   // debugging aid: one path, in this process
   signal(SIGPIPE, SIG_IGN);
   auto t0 = std::chrono::steady_clock::now();
   std::deque<std::string> work; work.push_back("-");
@@ -607,11 +615,14 @@ int main_entry(int argc, char** argv) {
         w.prefix = work.back(); work.pop_back();      // LIFO: depth first keeps the frontier small
         std::string msg = w.prefix + "\n";
         if (write(w.to_fd, msg.data(), msg.size()) != (ssize_t)msg.size()) { perror("write to worker"); }
-        w.busy = true; w.got_v_crash = false; ++dispatched;
+        w.busy = true; w.got_v_crash = false; ++dispatched; w.since = elapsed();
       }
       if (w.busy) ++busy;
     }
     if (busy == 0) break;
+    // watchdog: a worker that neither finishes nor dies (e.g. blocked inside the solver library) is killed;
+    // its path is counted as inconclusive
+    for (auto& w : ws) if (w.busy && elapsed() - w.since > g_path_timeout_s + 45.0) { kill(w.pid, SIGKILL); ++T.hung; w.since = elapsed() + 1e9; }
     std::vector<pollfd> pf;
     for (auto& w : ws) { pollfd p; p.fd = w.busy ? w.from_fd : -1; p.events = POLLIN; p.revents = 0; pf.push_back(p); }
     poll(pf.data(), pf.size(), 1000);
@@ -649,7 +660,8 @@ int main_entry(int argc, char** argv) {
       if (n == 0 || (n < 0 && errno != EINTR && errno != EAGAIN)) {
         // worker died
         int st; waitpid(w.pid, &st, 0);
-        if (w.busy) {
+        if (w.busy && w.since > 1e8) { ++T.paths; ++T.inconclusive; ++T.why[" worker hung (killed by the watchdog)"]; }
+        else if (w.busy) {
           ++T.paths; ++T.crashes;
           if (!w.got_v_crash) {
             std::ostringstream os; os << "{\"kind\":\"crash\",\"harness\":\"" << harness << "\",\"label\":\"worker died status " << st << "\",\"inputs\":null,\"facts\":{},\"prefix\":\"" << w.prefix << "\",\"witness\":\"\"}";
